@@ -65,6 +65,16 @@ def fix_wikipedia_siteinfo(siteinfo):
 
 
 
+def _strip_edges(name):
+    """strip whitespace and bidirectional marks (which are not part of a title) from
+    both ends; a mark may hide whitespace and vice versa, so repeat until stable"""
+    while True:
+        stripped = name.strip().strip("\u200e\u200f")
+        if stripped == name:
+            return name
+        name = stripped
+
+
 class NsHandler:
     def __init__(self, siteinfo):
         if siteinfo is None:
@@ -126,16 +136,16 @@ class NsHandler:
     def splitname(self, title, defaultns=0):
         if not isinstance(title, str):
             title = title.decode('utf-8') if isinstance(title, bytes) else str(title)
-        name = re.sub(r' +', ' ', title.replace("_", " ").strip())
+        name = re.sub(r' +', ' ', _strip_edges(title.replace("_", " ")))
         if name.startswith(":"):
-            name = name[1:].strip()
+            name = _strip_edges(name[1:])
             defaultns = 0
 
         if ":" in name:
             namespace, partial_name = name.split(":", 1)
             was_namespace, nsnum, prefix = self._find_namespace(namespace,
                                                                 defaultns=defaultns)
-            suffix = partial_name.strip() if was_namespace else name
+            suffix = _strip_edges(partial_name) if was_namespace else name
         else:
             prefix = self.siteinfo["namespaces"][str(defaultns)]["*"]
             suffix = name
